@@ -2,6 +2,7 @@ pub mod ber;
 pub mod frame;
 pub mod textl;
 pub mod req;
+pub mod ctl;
 use crate::rng::Rng;
 
 pub fn group_salt(group: &str) -> u64 { group.bytes().fold(0xcbf29ce484222325u64, |h, b| (h ^ b as u64).wrapping_mul(0x100000001b3)) }
@@ -17,6 +18,7 @@ pub fn gen(group: &str, rng: &mut Rng, n: usize, out: &mut Vec<String>) {
         "result" => textl::gen_result(rng, n, out),
         "url" => textl::gen_url(rng, n, out),
         "req" => req::gen(rng, n, out),
+        "ctl" => ctl::gen(rng, n, out),
         _ => panic!("unknown group {}", group),
     }
 }
@@ -26,6 +28,7 @@ pub fn run(lane: &str, args: &[&str]) -> (String, Option<String>) {
         "enc" | "parse" | "int" | "bool" => ber::run(lane, args),
         "frame" => frame::run(lane, args),
         "req" => req::run(lane, args),
+        "ctl" | "exop" | "cresp" => ctl::run(lane, args),
         "filter" | "esc" | "utf8" | "entry" | "result" | "helpers" | "url" => textl::run(lane, args),
         _ => ("UNKNOWN-LANE".into(), None),
     }
